@@ -568,3 +568,220 @@ Section Sys.
     intros Hf. unfold drun. apply inv_all_schedules; [intros s i; apply ginv_step|now apply ginv_init].
   Qed.
 End Sys.
+
+(* ------------------------------------------------------------------------------------------------ *)
+(* extractDomain                                                                                    *)
+(* ------------------------------------------------------------------------------------------------ *)
+
+Lemma cut_none r : cut_last_colon r = None <-> ~ In colon r.
+Proof.
+  induction r as [|c t IH]; cbn; [tauto|].
+  destruct (N.eqb c colon) eqn:E.
+  - apply N.eqb_eq in E. split; [discriminate|]. intros H. exfalso. apply H. now left.
+  - apply N.eqb_neq in E. rewrite IH. split; [intros H [H1|H1]; [congruence|contradiction]|intros H H1; apply H; now right].
+Qed.
+
+Lemma cut_some r t : cut_last_colon r = Some t -> exists p, r = p ++ colon :: t /\ ~ In colon p.
+Proof.
+  revert t; induction r as [|c r IH]; cbn; [discriminate|]. intros t.
+  destruct (N.eqb c colon) eqn:E.
+  - apply N.eqb_eq in E. intros H. inversion H; subst. exists []. cbn. auto.
+  - apply N.eqb_neq in E. intros H. destruct (IH t H) as (p & -> & Hp). exists (c :: p). split; [reflexivity|].
+    intros [H1|H1]; [congruence|contradiction].
+Qed.
+
+(* the result is the host itself (no ':' in it) or the host minus exactly one ":suffix" whose suffix has no ':' *)
+Lemma extract_spec h :
+  (extractDomain h = h /\ ~ In colon h) \/
+  (exists p, h = extractDomain h ++ colon :: p /\ ~ In colon p).
+Proof.
+  unfold extractDomain. destruct (cut_last_colon (rev h)) as [t|] eqn:E.
+  - right. destruct (cut_some _ _ E) as (p & Hr & Hp). exists (rev p). split.
+    + rewrite <- (rev_involutive h), Hr, rev_app_distr. cbn. now rewrite <- app_assoc.
+    + intros Hin. apply Hp. now apply in_rev.
+  - left. split; [reflexivity|]. apply cut_none in E. intros Hin. apply E. now apply in_rev in Hin.
+Qed.
+
+Lemma extract_no_colon h : ~ In colon h -> extractDomain h = h.
+Proof.
+  intros H. unfold extractDomain. replace (cut_last_colon (rev h)) with (@None (list N)); [reflexivity|].
+  symmetry. apply cut_none. intros Hin. apply H. now apply in_rev.
+Qed.
+
+Lemma cut_app_nocolon p t : ~ In colon p -> cut_last_colon (p ++ colon :: t) = Some t.
+Proof.
+  induction p as [|c p IH]; cbn [app cut_last_colon]; intros H.
+  - now rewrite N.eqb_refl.
+  - destruct (N.eqb c colon) eqn:E; [apply N.eqb_eq in E; exfalso; apply H; now left|].
+    apply IH. intros Hin. apply H. now right.
+Qed.
+
+(* exactly one ":port" suffix is stripped *)
+Lemma extract_strip_port d p : ~ In colon p -> extractDomain (d ++ colon :: p) = d.
+Proof.
+  intros H. unfold extractDomain. rewrite rev_app_distr. cbn. rewrite <- app_assoc. cbn.
+  rewrite cut_app_nocolon; [apply rev_involutive|]. intros Hin. apply H. now apply in_rev in Hin.
+Qed.
+
+(* the only Host spellings that resolve to a name n are n itself (when it has no ':') and n:<suffix without ':'> —
+   an upper-case spelling, a trailing dot, an IPv6 literal resolve to a DIFFERENT key or to none, never to n *)
+Lemma extract_only_own_spellings h n :
+  extractDomain h = n -> (h = n /\ ~ In colon n) \/ (exists p, h = n ++ colon :: p /\ ~ In colon p).
+Proof.
+  intros <-. destruct (extract_spec h) as [[E Hn]|(p & E & Hp)].
+  - left. rewrite E. auto.
+  - right. exists p. auto.
+Qed.
+
+(* ------------------------------------------------------------------------------------------------ *)
+(* consequences                                                                                     *)
+(* ------------------------------------------------------------------------------------------------ *)
+
+Section Consequences.
+  Variables reg cloud : name -> option pmap.
+
+  Lemma legacy_not_repo src h p now h' i c tg : src <> 1 -> legacy_result src h p now <> RRouted 1 h' i c tg.
+  Proof.
+    intros Hs. unfold legacy_result.
+    destruct (negb (p_active p)); [discriminate|]. destruct (p_revoked p); [discriminate|].
+    destruct (negb (N.eqb (p_exp p) 0) && N.ltb (p_exp p) now); [discriminate|].
+    intros E. inversion E. contradiction.
+  Qed.
+
+  Lemma fallback_not_repo h n now h' i c tg : fallback reg cloud h n now <> RRouted 1 h' i c tg.
+  Proof.
+    unfold fallback. destruct (reg n); [apply legacy_not_repo; discriminate|].
+    destruct (cloud n); [apply legacy_not_repo; discriminate|discriminate].
+  Qed.
+
+  Lemma is_active_spec r now :
+    is_active r now = true <-> r_status r = StActive /\ (r_exp r = 0 \/ now <= r_exp r).
+  Proof.
+    unfold is_active, is_expired. destruct (r_status r); try (split; [discriminate|intros [H _]; discriminate]).
+    destruct (N.eqb_spec (r_exp r) 0) as [E|E]; cbn.
+    - split; auto.
+    - destruct (N.ltb_spec (r_exp r) now) as [L|L]; cbn; split; try discriminate; auto.
+      intros [_ [H|H]]; [contradiction|lia].
+  Qed.
+
+  (* the whole lookup on one state: a repository answer names the current holder of exactly that domain, the client
+     that claimed it, a target that client wrote, and an active, unexpired record *)
+  Lemma lookup_now_owner s h now h' i c tg :
+    ShInv s -> lookup_now reg cloud s h now = RRouted 1 h' i c tg ->
+    h' = h /\ holder (extractDomain h) (log s) = Some i /\
+    In (EvClaim (extractDomain h) i c) (log s) /\ In (EvWrite i c tg) (log s) /\
+    exists r, recs s i = Some r /\ r_client r = c /\ r_target r = tg /\ is_active r now = true.
+  Proof.
+    intros Hs. pose proof Hs as (Hidx & _ & _ & _ & Hrec). unfold lookup_now.
+    destruct (idx s (extractDomain h)) as [j|] eqn:Ei; [|intros E; exfalso; exact (fallback_not_repo _ _ _ _ _ _ _ E)].
+    destruct (recs s j) as [m|] eqn:Er; [|intros E; exfalso; exact (fallback_not_repo _ _ _ _ _ _ _ E)].
+    destruct (is_active m now) eqn:Ea; [|destruct (is_expired m now); discriminate].
+    intros E. inversion E; subst. rewrite Hidx in Ei.
+    destruct (Hrec _ _ Er) as [H1 H2]. destruct (holder_in _ _ _ Ei) as [c' Hc'].
+    destruct (claim_functional s _ _ _ _ _ Hs H1 Hc') as [E1 _]. rewrite E1 in H1.
+    split; [reflexivity|split; [exact Ei|split; [exact H1|split; [exact H2|]]]].
+    exists m. auto.
+  Qed.
+
+  (* a name nobody holds: the index has no entry, no Host resolves to it through the repository, and the claim
+     step of ANY client's create succeeds *)
+  Lemma free_name_reclaimable s n :
+    ShInv s -> holder n (log s) = None ->
+    idx s n = None /\
+    (forall h now h' i c tg, extractDomain h = n -> lookup_now reg cloud s h now <> RRouted 1 h' i c tg) /\
+    (forall t i tgt fs, pc t = PCSetNX i n tgt -> next_fault t = (false, fs) ->
+       decide true true reg cloud t s = (goto t fs (PCSetRec i n tgt), AClaim n i (cl t))).
+  Proof.
+    intros Hs Hh. pose proof Hs as (Hidx & _). assert (Hi : idx s n = None) by (rewrite Hidx; exact Hh).
+    split; [exact Hi|split].
+    - intros h now h' i c tg E. unfold lookup_now. rewrite E, Hi. apply fallback_not_repo.
+    - intros t i tgt fs Hp Hf. unfold decide. rewrite Hf, Hp, Hi. reflexivity.
+  Qed.
+
+  (* right after a release the name is free *)
+  Lemma release_frees s n i c l : log s = EvRelease n i c :: l -> holder n (log s) = None.
+  Proof. intros ->. cbn. now rewrite name_eqb_refl. Qed.
+
+  (* DeleteMapping by a client that does not own the record: refused, the store is untouched *)
+  Lemma foreign_delete_refused t s r rest m fs :
+    pc t = Idle -> ops t = ODelete r :: rest -> next_fault t = (false, fs) ->
+    recs s (resolve t r) = Some m -> r_client m <> cl t ->
+    dstep true true reg cloud t s = (finish t fs (RErr EForbidden), s).
+  Proof.
+    intros Hp Ho Hf Hr Hc. unfold dstep, decide. rewrite Hf, Hp, Ho, Hr.
+    apply N.eqb_neq in Hc. rewrite Hc. reflexivity.
+  Qed.
+
+  (* second read of a lookup: an inactive or expired record is an error, not a fall-through to the other sources *)
+  Lemma inactive_or_expired_step t s h n i now m fs :
+    pc t = PCLRec h n i now -> next_fault t = (false, fs) -> recs s i = Some m -> is_active m now = false ->
+    dstep true true reg cloud t s =
+      (finish t fs (RErr (if is_expired m now then EForbidden else EUnavailable)), s).
+  Proof.
+    intros Hp Hf Hr Ha. unfold dstep, decide. rewrite Hf, Hp, Hr, Ha. destruct (is_expired m now); reflexivity.
+  Qed.
+
+  Section Reach.
+    Variables (ts : list thr) (sched : list nat).
+    Hypothesis Hfresh : forall t, In t ts -> fresh_thr t.
+    Let s := drun true true reg cloud empty_store ts sched.
+
+    Lemma reach_shinv : ShInv (fst s).
+    Proof. exact (proj1 (ginv_all_schedules reg cloud ts sched Hfresh)). Qed.
+
+    Lemma single_owner :
+      (forall n, idx (fst s) n = holder n (log (fst s))) /\
+      (forall l1 l2 n i c, log (fst s) = l1 ++ EvClaim n i c :: l2 -> holder n l2 = None) /\
+      (forall l1 l2 n i c, log (fst s) = l1 ++ EvRelease n i c :: l2 -> holder n l2 = Some i /\ In (EvClaim n i c) l2) /\
+      (forall n n' i, idx (fst s) n = Some i -> idx (fst s) n' = Some i -> n = n') /\
+      (forall n i c n' c', In (EvClaim n i c) (log (fst s)) -> In (EvClaim n' i c') (log (fst s)) -> n = n' /\ c = c').
+    Proof.
+      pose proof reach_shinv as Hs. pose proof Hs as (Hidx & Hok & _).
+      split; [exact Hidx|split; [|split; [|split]]].
+      - intros l1 l2 n i c E. rewrite E in Hok. exact (log_ok_claim _ _ _ _ _ Hok).
+      - intros l1 l2 n i c E. rewrite E in Hok. exact (log_ok_release _ _ _ _ _ Hok).
+      - intros n n' i. apply idx_injective. exact Hs.
+      - intros n i c n' c'. apply claim_functional. exact Hs.
+    Qed.
+
+    Lemma routes_to_owner_or_rejects t h i c tg :
+      In t (snd s) -> In (RRouted 1 h i c tg) (out t) ->
+      In (EvClaim (extractDomain h) i c) (log (fst s)) /\ In (EvWrite i c tg) (log (fst s)) /\
+      (forall n' c', In (EvClaim n' i c') (log (fst s)) -> n' = extractDomain h /\ c' = c).
+    Proof.
+      intros Ht Hr. destruct (ginv_all_schedules reg cloud ts sched Hfresh) as (Hs & _ & _ & Hth).
+      destruct (Hth t Ht) as (_ & Ho & _). specialize (Ho _ Hr). cbn in Ho. destruct (Ho eq_refl) as [H1 H2].
+      split; [exact H1|split; [exact H2|]]. intros n' c' H3.
+      destruct (claim_functional _ _ _ _ _ _ Hs H1 H3). auto.
+    Qed.
+
+    Lemma lookup_now_reach h now h' i c tg :
+      lookup_now reg cloud (fst s) h now = RRouted 1 h' i c tg ->
+      h' = h /\ holder (extractDomain h) (log (fst s)) = Some i /\
+      In (EvClaim (extractDomain h) i c) (log (fst s)) /\ In (EvWrite i c tg) (log (fst s)) /\
+      exists r, recs (fst s) i = Some r /\ r_client r = c /\ r_target r = tg /\ is_active r now = true.
+    Proof. apply lookup_now_owner. exact reach_shinv. Qed.
+
+    Lemma deleted_stops_routing_and_is_reclaimable n i c l :
+      log (fst s) = EvRelease n i c :: l ->
+      In (EvClaim n i c) l /\
+      idx (fst s) n = None /\
+      (forall h now h' i' c' tg, extractDomain h = n -> lookup_now reg cloud (fst s) h now <> RRouted 1 h' i' c' tg) /\
+      (forall t i' tgt fs, pc t = PCSetNX i' n tgt -> next_fault t = (false, fs) ->
+         decide true true reg cloud t (fst s) = (goto t fs (PCSetRec i' n tgt), AClaim n i' (cl t))).
+    Proof.
+      intros E. pose proof reach_shinv as Hs. pose proof Hs as (_ & Hok & _).
+      split.
+      - rewrite E in Hok. cbn in Hok. tauto.
+      - apply free_name_reclaimable; [exact Hs|]. exact (release_frees _ _ _ _ _ E).
+    Qed.
+  End Reach.
+End Consequences.
+
+Example fresh_premises :
+  forall t, In t [init_thr 1 [OCreate [97] [116] 11; ODelete (Mine 0)] []; init_thr 1 [ODelete (Abs 1)] [false; true];
+                  init_thr 2 [OCreate [97] [116] 22; OLookup [97; 46; 116; 58; 56; 48] 5] []] -> fresh_thr t.
+Proof.
+  intros t [<-|[<-|[<-|[]]]]; (split; [reflexivity|split; [reflexivity|split; [reflexivity|]]]);
+    intros x Hx; cbn in Hx; intuition (subst; discriminate).
+Qed.
